@@ -670,7 +670,8 @@ func (f Function) lambdaPrint(ps *ast.PrintState, out *strings.Builder) string {
 	}
 	needBraces := len(f.Body.Statements) != 1 ||
 		f.Body.Statements[0].Value().Type() == token.LBRACE ||
-		f.Body.Statements[0].Value().Type() == token.LAMBDA
+		f.Body.Statements[0].Value().Type() == token.LAMBDA ||
+		!lambdaBodyOk(f.Body.Statements[0])
 	if needBraces {
 		out.WriteString("{")
 	}
@@ -679,6 +680,18 @@ func (f Function) lambdaPrint(ps *ast.PrintState, out *strings.Builder) string {
 		out.WriteString("}")
 	}
 	return out.String()
+}
+
+// A brace-less lambda body is a single expression binding tighter than =>: a return, a comment or
+// an operator of lower precedence (x => a || b is (x => a) || b) need the braces.
+func lambdaBodyOk(stmt ast.Node) bool {
+	switch s := stmt.(type) {
+	case *ast.ReturnStatement, *ast.Comment:
+		return false
+	case *ast.InfixExpression:
+		return ast.Precedences[s.Type()] > ast.LAMBDA
+	}
+	return true
 }
 
 // Common part of Inspect and SetCacheKey. Outputs the rest of the function.
